@@ -25,6 +25,7 @@ OBLIGATIONS = {
     "wif_suffix_long": "a WIF suffix >= 71 bytes round-tripped", "wif_unknown_version": "a checksum-valid WIF with unknown version offered",
     "wif_invalid_key_refused": "an invalid private key offered to the WIF encoder",
     "pem_leading_zero_key": "a private key with leading zero bytes PEM round-tripped",
+    "pem_der_lookalike_key": "a private key whose own bytes parse as a DER TLV filling the key",
     "pem_openssl_reads": "OpenSSL loaded a library-written PEM", "pem_library_reads_openssl": "the library decoded an OpenSSL-written PEM",
 }
 BOUND = {"quick": "SEC1 complete on p=43; WIF full product; 11 PEM keys", "thorough": "SEC1 complete on p=43,67,79; more PEM keys"}
@@ -362,9 +363,22 @@ def run_job(job):
         n = S.n
         ks = [1, 2, 255, 256, 2 ** 247, 2 ** 248 - 1, n - 1] + [int.from_bytes(filler(seed, f"c14-pk{i}", 32), "big") % n or 1
                                                                 for i in range(4 if job["tier"] == "quick" else 12)]
+        # private keys whose leading bytes read as a DER TLV spanning the whole key (SEQUENCE/INTEGER/OCTET STRING/BIT STRING/
+        # OID with short-form length 30 and long-form 0x81 29, and a truncated/overlong one): a container reader that sniffs
+        # "does the OCTET STRING wrap another structure?" misreads exactly these
+        for tag in (0x30, 0x02, 0x04, 0x03, 0x06, 0x31, 0xA0, 0xA1):
+            for hdr in (bytes([tag, 30]), bytes([tag, 0x81, 29]), bytes([tag, 0x82, 0, 28])):
+                k = int.from_bytes(hdr + filler(seed, f"c14-der{tag}", 32 - len(hdr)), "big")
+                if 0 < k < n:
+                    ks.append(k)
+        ks.append(int.from_bytes(bytes([0x30, 30, 0x02, 1, 1, 0x04, 25]) + filler(seed, "c14-der-nested", 25), "big"))
+        ks.append(int.from_bytes(bytes([0x30, 30, 0x02, 1, 0, 0x30, 25]) + filler(seed, "c14-der-nested2", 25), "big"))
         cases = []
         for k in ks:
             cases.append({"what": "priv", "key": k.to_bytes(32, "big").hex()})
+            if k.to_bytes(32, "big")[0] in (0x30, 0x02, 0x04, 0x03, 0x06, 0x31, 0xA0, 0xA1):
+                acc.ob("pem_der_lookalike_key")
+                continue                     # (public forms of these add nothing)
             P = S.mul(k, S.G)
             cases.append({"what": "pub", "key": (bytes([2 + (P[1] & 1)]) + P[0].to_bytes(32, "big")).hex()})
             cases.append({"what": "pub", "key": (b"\x04" + P[0].to_bytes(32, "big") + P[1].to_bytes(32, "big")).hex()})
